@@ -307,6 +307,19 @@ func (b *reqBench) check(final bool) {
 				why := "C04/resend-too-soon"
 				w.Failf(why, "request %s (retry %v): transmission %d at %v on %s has no trigger: earlier transmissions at %s, pipe closures %s", q.tag, q.R, j, tx.at, tx.pipe.Name, txTimes(q.txs[:j]), pipeCloses(q.txs[:j]))
 			}
+			// (f) "each time the retry interval elapses (never sooner)": the
+			// interval runs from the latest transmission. A retransmission that
+			// follows the previous one by less than the interval is the answer
+			// to the loss of the connection that carried the previous one -
+			// nothing else (a timer left over from an earlier transmission of
+			// the same request would fire here).
+			if prev := q.txs[j-1]; q.R > 0 && tx.at-prev.at < q.R {
+				pc := prev.pipe
+				closed := (pc.PeerClosedAt >= 0 && pc.PeerClosedAt <= tx.at) || (pc.ClosedAt >= 0 && pc.ClosedAt <= tx.at)
+				if !closed {
+					w.Failf("C04/resend-sooner-than-interval-after-latest", "request %s (retry %v): transmission %d at %v on %s follows transmission %d (at %v on %s) by %v, and %s has not closed: earlier transmissions at %s, pipe closures %s", q.tag, q.R, j, tx.at, tx.pipe.Name, j-1, prev.at, pc.Name, tx.at-prev.at, pc.Name, txTimes(q.txs[:j]), pipeCloses(q.txs[:j]))
+				}
+			}
 		}
 		if len(q.txs) == 0 || b.bounded {
 			continue
